@@ -25,6 +25,11 @@ CLIPSHAPES = {
     "tri": '<polygon points="20,75 80,65 45,15"{a}/>',
     "star": '<polygon points="50,12 73,82 13,38 87,38 27,82"{a}/>',
     "nested": '<path d="M20,20 H80 V80 H20 Z M35,35 H65 V65 H35 Z"{a}/>',
+    # two rings side by side (disjoint bounding boxes), each with a same-direction hole
+    "ringL": '<path d="M8,18 H44 V72 H8 Z M16,28 H36 V62 H16 Z"{a}/>',
+    "ringR": '<path d="M54,22 H94 V78 H54 Z M63,32 H85 V68 H63 Z"{a}/>',
+    "starS": '<polygon points="25,8 34,38 10,19 40,19 16,38"{a}/>',
+
 }
 RULES = ["nz", "eo", "eo-inherit", "eo-style"]
 T1 = "translate(8,-5) rotate(12)"
@@ -85,7 +90,14 @@ def document(children, cp_t, target, target_t, nested, ancestors):
 
 
 def all_cases(tier):
-    shapes = list(CLIPSHAPES)
+    shapes = [n for n in CLIPSHAPES if n not in ("ringL", "ringR", "starS")]
+    # children with pairwise disjoint bounding boxes (a union that is a mere concatenation)
+    for (a, b) in (("ringL", "ringR"), ("starS", "ringR"), ("ringR", "ringL")):
+        for ra, rb in itertools.product(("nz", "eo", "eo-inherit", "eo-style"), repeat=2):
+            if (ra == "eo-inherit") != (rb == "eo-inherit") and "nz" in (ra, rb):
+                continue
+            for cp_t, target, anc in itertools.product((False, True), ("shape", "group", "twins"), (0, 1)):
+                yield ([(a, ra, False), (b, rb, False)], cp_t, target, False, False, anc)
     child1 = [(s, r) for s in shapes for r in RULES]
     # k = 1: full product
     for (s, r), tchild, cp_t, target, target_t, nested, anc in itertools.product(child1, (False, True), (False, True), TARGETS, (False, True), (False, True), (0, 1, 2)):
